@@ -293,6 +293,8 @@ def observe(seed, tier, extra_args=()):
             elif len(summary["mismatch_core"]) < 5:
                 summary["mismatch_core"].append({"verdict": vc[:800], "case": r["cfg"]["case"], "plan": plan,
                                                  "seed": seed * 1000 + pi, "cfg": r["cfg"], "trace": strip_ticks(ls)[:600]})
+            if vf.startswith("OK") and 30 <= len(ls) <= 160 and len(summary.setdefault("coq_traces", [])) < (4 if tier == "quick" else 25):
+                summary["coq_traces"].append({"script": ls, "verdict": vf})
             if len(summary["samples"]) < 2 and len(r["cfg"]["jobs"]) >= 3:
                 summary["samples"].append({"cfg": {k: r["cfg"][k] for k in ("n", "coe", "shape", "jobs")},
                                            "wait_err": r["wait_err"], "replay_script_head": ls[:40], "verdict": vf})
